@@ -274,7 +274,52 @@ pub fn deserialize(data: &[u8]) -> Option<(LruFileHeader, Vec<LruFileEntry>)> {
         entries.push(LruFileEntry::from_bytes(entry_bytes));
     }
 
+    // The MD5 only proves the file is what its writer produced; the links are
+    // still indices into `entries` that the manager follows without checks.
+    if !links_are_consistent(&header, &entries) {
+        return None;
+    }
+
     Some((header, entries))
+}
+
+/// Check the doubly-linked list stored in an LRU file.
+///
+/// - head, tail and the links of every active entry are the sentinel or a
+///   valid index into `entries`
+/// - walking `next` from the LRU tail visits active entries whose `prev`
+///   points at the entry visited before, never revisits an entry (no
+///   cycle) and ends at the MRU head
+fn links_are_consistent(header: &LruFileHeader, entries: &[LruFileEntry]) -> bool {
+    let count = entries.len();
+    let valid = |idx: u32| idx == LRU_SENTINEL || (idx as usize) < count;
+
+    if !valid(header.mru_head) || !valid(header.lru_tail) {
+        return false;
+    }
+    if entries
+        .iter()
+        .any(|e| e.is_active() && (!valid(e.prev) || !valid(e.next)))
+    {
+        return false;
+    }
+
+    let mut previous = LRU_SENTINEL;
+    let mut idx = header.lru_tail;
+    let mut steps = 0usize;
+    while idx != LRU_SENTINEL {
+        if steps >= count {
+            return false; // cycle
+        }
+        let entry = &entries[idx as usize];
+        if !valid(entry.next) || entry.prev != previous {
+            return false;
+        }
+        previous = idx;
+        idx = entry.next;
+        steps += 1;
+    }
+    previous == header.mru_head
 }
 
 #[cfg(test)]
